@@ -194,6 +194,11 @@ thread_local! {
     pub static LAST_PANIC: std::cell::RefCell<String> = std::cell::RefCell::new(String::new());
 }
 
+pub fn last_panic_site() -> String {
+    let w = LAST_PANIC.with(|p| p.borrow().clone());
+    panic_site(&w)
+}
+
 /// stable name of a panic site: `file.rs:enclosing_fn:kind` (line numbers move with every edit)
 pub fn panic_site(what: &str) -> String {
     // what = "/repo/teos/src/x.rs:LINE: message"
